@@ -68,6 +68,14 @@ for g, alpha in GRAMMARS:
                 got = outcome(b_lark.parse, s.encode('ascii'))
                 if got != ref:
                     note('bytes-vs-str', {'grammar': g, 'engine': '%s/%s' % (p, l), 'text': s}, got, ref)
+                # a slice that covers the whole text is the text (every engine, the dynamic lexers included)
+                evals += 1
+                try:
+                    w = outcome(s_lark.parse, TextSlice(s, 0, len(s)))
+                except TypeError as e:
+                    w = ('raised TypeError', str(e)[:80])
+                if w != ref:
+                    note('complete-slice', {'grammar': g, 'engine': '%s/%s' % (p, l), 'text': s}, w, ref)
                 if l in ('basic', 'contextual') and n >= 1:
                     for pre, suf in (('', 'zz'), ('q\n', ''), ('ab', '\n"'), ('\n\nxy', 'x')):
                         for lark_, conv in ((s_lark, lambda t: t), (b_lark, lambda t: t.encode('ascii'))):
